@@ -2,7 +2,7 @@
    Model.v is the reader as implemented (validated against pharmpy by the correspondence check),
    Spec.v is the reference reader written from docs/NONMEM.rst. *)
 From Coq Require Import QArith ZArith NArith List Bool PArith Arith.
-From PV Require Import Base.PyData C13.Model C13.Spec C13.Proofs.
+From PV Require Import Base.PyData C13.Model C13.Spec C13.Proofs C13.Time C13.TimeProofs C13.Pk.
 Import ListNotations.
 Local Open Scope nat_scope.
 
@@ -128,3 +128,42 @@ Theorem write_read_cycle_filtered :
     i_accept (written_input pr true true old ci mdt hdr rows) = [] /\
     (forall renamed, written_input pr false renamed old ci mdt hdr rows = old).
 Proof. exact write_read_cycle_filtered_lemma. Qed.
+
+(* ---- TIME / DATE translation (translate_nmtran_time; model and calendar specification in Time.v) --------------
+   day_number_counts_days: the day number the model gives a date counts calendar days — walking k days forward,
+   one day at a time through month ends, leap days and year ends, from ANY valid date raises it by exactly k.
+   relative_time_calendar / translated_time_calendar: for every file (any number of records and individuals) whose
+   dates are calendar dates, the translated TIME of a record is 24 * (days walked from the date of the individual's
+   first record) + difference of the clock times; first_record_zero: the first record gets 0. *)
+
+Theorem day_number_counts_days :
+  forall (d e : Z * Z * Z) (k : Z), valid3 d = true -> days_apart d e k -> dn3 e = (dn3 d + k)%Z /\ valid3 e = true.
+Proof. exact day_number_counts. Qed.
+Theorem relative_time_calendar :
+  forall (d1 d2 : Z * Z * Z) (k : Z) (h1 h2 : Q), valid3 d1 = true -> days_apart d1 d2 k ->
+    Qeq (hours_between (TStamp (dn3 d1) h1) (TStamp (dn3 d2) h2)) (inject_Z k * 24 + (h2 - h1)).
+Proof. exact relative_time_calendar_lemma. Qed.
+Theorem translated_time_calendar :
+  forall (dc : str) (ids : list Q) (times dates : list str) (vals : list tval) (id : Q) (j : nat)
+         (d1 d2 : Z * Z * Z) (k : Z) (h1 h2 : Q),
+    mapM (fun td => date_time_value dc (fst td) (snd td)) (combine times dates) = Ok vals ->
+    all_stamp vals = true ->
+    nth_error ids j = Some id -> nth_error vals j = Some (TStamp (dn3 d2) h2) ->
+    first_of id ids vals = Some (TStamp (dn3 d1) h1) ->
+    valid3 d1 = true -> days_apart d1 d2 k ->
+    exists out q, translate_columns dc ids times dates = Ok out /\ nth_error out j = Some q /\
+                  Qeq q (inject_Z k * 24 + (h2 - h1)).
+Proof. exact translated_time_calendar_lemma. Qed.
+Theorem first_record_zero : forall v : tval, Qeq (hours_between v v) 0.
+Proof. exact first_record_zero_lemma. Qed.
+
+
+(* ---- $PK models: filter_observations (model in Pk.v: read_model_pk = read_model followed by filter_obs) -------
+   For ID and label columns of any length: a record is kept iff SOME record with an equal ID is an observation
+   (label value 0: MDV, else EVID, else AMT) — individuals without observations are removed as a whole. *)
+Theorem filter_observations_spec :
+  forall (ids labs : list cell) (j : nat) (i : cell),
+    nth_error ids j = Some i ->
+    (nth j (obs_mask ids labs) false = true <->
+     exists k i' lab, nth_error ids k = Some i' /\ nth_error labs k = Some lab /\ is_zero lab = true /\ cell_eqb i i' = true).
+Proof. exact obs_mask_spec. Qed.
